@@ -1,3 +1,4 @@
-/- C04 property theorems (not written yet) -/
+/- C04 property theorems (in progress) -/
+import WzVerif.Model.RoutingRoundtrip
 namespace Wz.Props.C04
 end Wz.Props.C04
